@@ -97,6 +97,17 @@ cannot be resolved; an input batch the declared schema refuses): extracted one b
 theorem exchange_input_statuses : VgiVerif.Gen.C34.exchangeResolve = some 500 ∧ VgiVerif.Gen.C34.exchangeCoerce = some 400 :=
   ⟨rfl, rfl⟩
 
+/-- the stream id is published on every path that serves a stream request: `/init`, and — whether the call-state cache hits
+or misses — every continuation, exchange turn and cancel -/
+theorem sidShape : G.sidAtInit = true ∧ G.sidOnHit = true ∧ G.sidOnMiss = true := ⟨rfl, rfl, rfl⟩
+
+theorem initSid_eq (env : Env) (n : Nat) : Http.initSid env n = env.sid n := by
+  simp [Http.initSid, sidShape.1]
+
+theorem contSid_eq (env : Env) (n : Nat) (key : Option Nat) : Http.contSid env n key = env.sid n := by
+  unfold Http.contSid
+  cases env.cacheHit n key <;> simp [sidShape.2.1, sidShape.2.2]
+
 /-! ### WF ⇒ SchemaOk -/
 
 theorem propOk_flag {g : Key → Option JV} {k : Key} (b : Bool) (v : JV) (hk : g k = flag b v) (as : List Atom)
@@ -319,15 +330,22 @@ theorem http_serve_wf {env : Env} (henv : EnvOk env) (brk : Nat → Bool) (n : N
   cases q with
   | init =>
     unfold Http.serve Http.init
+    rw [initSid_eq]
     cases m.init with
     | some e => exact egress_wf (telemetry_wf henv n m.name hn _ (by unfold OutcomeOk; simp [Http.stOf]; decide))
     | none =>
       cases m.exchange with
       | true => exact egress_wf (telemetry_wf henv n m.name hn _ (by unfold OutcomeOk; decide))
       | false => exact egress_wf (telemetry_wf henv n m.name hn _ (turnOutcome_ok _ _))
-  | cont pos => exact egress_wf (telemetry_wf henv n m.name hn _ (turnOutcome_ok _ _))
-  | exch pos over => exact egress_wf (telemetry_wf henv n m.name hn _ (exchOutcome_ok _ _ _))
-  | cancel => exact egress_wf (telemetry_wf henv n m.name hn _ (by unfold OutcomeOk; decide))
+  | cont pos =>
+    simp only [Http.serve, Http.cont, contSid_eq]
+    exact egress_wf (telemetry_wf henv n m.name hn _ (turnOutcome_ok _ _))
+  | exch pos over =>
+    simp only [Http.serve, Http.exch, contSid_eq]
+    exact egress_wf (telemetry_wf henv n m.name hn _ (exchOutcome_ok _ _ _))
+  | cancel =>
+    simp only [Http.serve, Http.cancel, contSid_eq]
+    exact egress_wf (telemetry_wf henv n m.name hn _ (by unfold OutcomeOk; decide))
 
 theorem http_unary_wf {env : Env} (henv : EnvOk env) (m : UnaryM) (hn : m.name ≠ []) (over : Option Exn) :
     ∀ r ∈ Http.unary env m over, WF r := by
@@ -549,12 +567,19 @@ theorem http_serve_attr {env : Env} (henv : EnvOk env) (brk : Nat → Bool) (n :
   cases q with
   | init =>
     unfold Http.serve Http.init
+    rw [initSid_eq]
     cases m.init with
     | some e => exact telemetry_attr henv n m.name _ _
     | none => cases m.exchange <;> exact telemetry_attr henv n m.name _ _
-  | cont pos => exact telemetry_attr henv n m.name _ _
-  | exch pos over => exact telemetry_attr henv n m.name _ _
-  | cancel => exact telemetry_attr henv n m.name _ _
+  | cont pos =>
+    simp only [Http.serve, Http.cont, contSid_eq]
+    exact telemetry_attr henv n m.name _ _
+  | exch pos over =>
+    simp only [Http.serve, Http.exch, contSid_eq]
+    exact telemetry_attr henv n m.name _ _
+  | cancel =>
+    simp only [Http.serve, Http.cancel, contSid_eq]
+    exact telemetry_attr henv n m.name _ _
 
 theorem call_attr {env : Env} (henv : EnvOk env) (t : Transport) (n : Nat) (c : Call) :
     ∀ r ∈ callRecords env t n c, Attributed env n c r := by
@@ -716,12 +741,19 @@ theorem serve_eq (env : Env) (brk : Nat → Bool) (n : Nat) (m : StreamM) (q : H
   cases q with
   | init =>
     unfold Http.serve Http.init reqOutcome
+    rw [initSid_eq]
     cases m.init with
     | some e => exact ⟨true, egress_telemetry_eq _ _ _ _ _⟩
     | none => cases m.exchange <;> exact ⟨true, egress_telemetry_eq _ _ _ _ _⟩
-  | cont pos => exact ⟨false, egress_telemetry_eq _ _ _ _ _⟩
-  | exch pos over => exact ⟨true, egress_telemetry_eq _ _ _ _ _⟩
-  | cancel => exact ⟨true, egress_telemetry_eq _ _ _ _ _⟩
+  | cont pos =>
+    simp only [Http.serve, Http.cont, contSid_eq]
+    exact ⟨false, egress_telemetry_eq _ _ _ _ _⟩
+  | exch pos over =>
+    simp only [Http.serve, Http.exch, contSid_eq]
+    exact ⟨true, egress_telemetry_eq _ _ _ _ _⟩
+  | cancel =>
+    simp only [Http.serve, Http.cancel, contSid_eq]
+    exact ⟨true, egress_telemetry_eq _ _ _ _ _⟩
 
 theorem reqOutcome_err (brk : Nat → Bool) (m : StreamM) (q : Http.Req) : (reqOutcome brk m q).err = Http.reqErr brk m q := by
   cases q with
@@ -1702,7 +1734,7 @@ open Aux
 def demoEnv : Env :=
   { serverId := ['s'], protocol := ['P'], protocolHash := List.replicate 64 '0', serverVersion := [], debug := false,
     principal := [], authDomain := [], authenticated := false, claims := false, requestId := ['r'], httpRemote := [],
-    sid := fun _ => List.replicate 32 'a' }
+    sid := fun _ => List.replicate 32 'a', cacheHit := fun _ _ => false }
 
 example : EnvOk demoEnv :=
   ⟨by decide, by decide, by decide, fun _ => (by decide : fullMatch (.hexLen 32) (List.replicate 32 'a') = true)⟩
